@@ -1304,6 +1304,19 @@ class unyt_array(np.ndarray):
         """
         return self.view(np.ndarray).argsort(axis, kind, order)
 
+    def fill(self, value):
+        """
+        Fill the array with a scalar value; a quantity is converted to the
+        array's units first.
+
+        See the documentation of ndarray.fill for details.
+        """
+        if hasattr(value, "units"):
+            if value.units != self.units and value.units != NULL_UNIT:
+                value = value.to(self.units)
+            value = value.value
+        super().fill(value)
+
     def round(self, decimals=0, out=None):
         """
         Return the array with each element rounded to the given number of
